@@ -50,12 +50,14 @@ class OpVal:
         return " ".join([self.op] + [str(a) for a in self.args])
 
 
-def _sorted(x):
+def _sorted(x, key=None, reverse=False):
     x = list(x)
+    if key is not None:
+        return sorted(x, key=key, reverse=reverse)
     try:
-        return sorted(x)
+        return sorted(x, reverse=reverse)
     except TypeError:
-        return sorted(x, key=str)
+        return sorted(x, key=str, reverse=reverse)
 
 
 class Rec:
